@@ -537,13 +537,31 @@ def slice_resolution(repo: Repo, R):
                 f"`{ast.unparse(c)}` concatenates the resolved head before the resolved tail: {ok}",
                 why="resolving a nested concatenation reorders its parts")
     env = au.local_env(fi.node)
-    for c, b in pat.find("_resolve_concat(Concat(*$X))", fi.node):
-        x = b["X"]
+    # the tail: all remaining parts, in order — resolved in place, or through the helper that accepts an empty tail
+    tail_fn = repo.find_func(F_SLICES, "_resolve_rest")
+    tails = [(c, b["X"], False) for c, b in pat.find("_resolve_concat(Concat(*$X))", fi.node)] + ([(c, b["X"], True) for c, b in pat.find("_resolve_rest($X)", fi.node)] if tail_fn is not None else [])
+    for c, x, via_helper in tails:
         ok = isinstance(x, ast.Subscript) and isinstance(x.slice, ast.Slice) and x.slice.upper is None and x.slice.step is None and x.slice.lower is not None and ast.unparse(x.value).endswith(".parts")
+        # a tail that starts right after the first part is empty when that part is the last one: only the helper takes that
+        may_be_empty = ok and ast.unparse(x.slice.lower) != "idx"
         n += 1
-        R.check(ok, rule, key_of(fi, f"tail-{ast.unparse(x)}"), fi.at(c),
-                f"the tail is `{ast.unparse(x)}` (all remaining parts, in order): {ok}",
-                why="parts are dropped or duplicated while flattening a concatenation")
+        R.check(ok and (via_helper or not may_be_empty), rule, key_of(fi, f"tail-{ast.unparse(x)}"), fi.at(c),
+                f"the tail is `{ast.unparse(x)}` (all remaining parts, in order): {ok}" + ("" if via_helper or not may_be_empty else "; it is empty when the compound part comes last, and a Concat of no parts is refused"),
+                why="parts are dropped or duplicated while flattening a concatenation — or a valid concatenation whose last part is itself a concatenation / nested slice is refused ('Concatenation with no parts')")
+    if tail_fn is not None:
+        pa = tail_fn.node.args.args[0].arg
+        empty_ok = any(ast.unparse(r_.value) in ("()", "tuple()") and shared.conds_imply(shared.path_conditions(tail_fn.node, r_), [(shared.parse_cond(pa), False)]) is True for r_ in shared.returns_of(tail_fn.node) if r_.value is not None)
+        rest_ok = any(ast.unparse(r_.value) == f"_resolve_concat(Concat(*{pa})).parts" for r_ in shared.returns_of(tail_fn.node) if r_.value is not None)
+        n += 1
+        R.check(empty_ok and rest_ok, rule, key_of(tail_fn), tail_fn.site, f"_resolve_rest: no parts -> no parts ({empty_ok}); otherwise the parts of the resolved concatenation of exactly these parts ({rest_ok})",
+                why="the tail of a concatenation is dropped, or an empty tail is refused")
+    # a leading slice contributes the list of its signal-level slices (a list: it is concatenated with the tail's parts)
+    for c, b in pat.find("Concat(*($A + $B))", fi.node):
+        a_ = shared.prov(fi.node, b["A"])
+        if "Slice" in ast.unparse(b["A"]) or "_resolve_slice(" in ast.unparse(a_) or "_list_slice(" in ast.unparse(a_):
+            listed = "_list_slice(" in ast.unparse(a_) and "_resolve_slice(" not in ast.unparse(a_)
+            R.check(listed, rule, key_of(fi, "leading-slice-listed"), fi.at(c), f"a leading slice is expanded with _list_slice (a list of slices), not _resolve_slice (one object): {listed}",
+                    why="`Concat(a, d[0:2][0:1], c)` is refused with a TypeError: a Slice object is added to a tuple")
     for c, b in pat.find("Concat(*[_resolve_sliceable($P) for $P in $C.parts])", fi.node):
         n += 1
         R.ok(rule, key_of(fi, "flat-case"), fi.at(c), "flat case maps each part in order")
@@ -1127,6 +1145,19 @@ def secondary(repo: Repo, R, noret):
         src = [c for c, b in pat.find(f"{gv}.add($C)", ff.node) if pat.match(f"{pv}.inst.conns.get({pv}.portname)", prov(ff.node, b["C"])) is not None]
         ok = len(rec) == 1 and len(src) == 1 and cond_match(ff.node, rec[0], "isinstance($C, PortRef)", True) and cond_match(ff.node, src[0], "isinstance($C, PortRef)", False)
     R.check(ok, rule, key_of(ff, "ref-vs-source") if ff else "follow", ff.site if ff else fe.site, f"a port's connection is followed when it is a reference and recorded as (candidate) source otherwise: {ok}", why="a reference is taken for a source (or a signal is followed as if it were a reference)")
+    # (b') ... and walks the back-references of a port reference only into instances the module holds
+    held = False
+    n_walk = 0
+    if ff is not None:
+        for lp in [n for n in au.walk_no_nested(ff.node) if isinstance(n, ast.For) and ast.unparse(n.iter).endswith("._connected_ports")]:
+            tv = ast.unparse(lp.target)
+            for c in [c for c in au.calls_in(lp) if isinstance(c.func, ast.Name) and c.func.id == ff.name]:
+                n_walk += 1
+                conds = {(ast.unparse(t), pol) for t, pol in shared.path_conditions(ff.node, c)}
+                held = (f"{tv}.inst._parent_module is module", True) in conds or (f"module is {tv}.inst._parent_module", True) in conds
+    R.check(held and n_walk == 1, rule, key_of(ff, "follow-held-instances-only") if ff else "follow", ff.site if ff else fe.site,
+            f"the ports listed as connected to a reference are followed only when their instance is owned by the module being resolved: {held}",
+            why="a connection made by an instance that was since replaced (same name) or consumed by `n * inst` still ties its old net into the group: a later NoConn on that port is refused as multiply-connected, or two nets merge")
     # (c) BundleRef path / root
     bp = repo.func(F_BUNDLE, "BundleRef.path")
     rets = returns_of(bp.node)
